@@ -87,9 +87,24 @@ impl ProgramLines {
         let mut lines: Vec<String> = Vec::with_capacity(self.numbered_lines.len());
 
         for (line_number, tokens) in self.list_tokens() {
+            let mut prev_token: Option<&Token> = None;
             let line = tokens
                 .iter()
-                .map(|token| token.to_string())
+                .map(|token| {
+                    let mut string = token.to_string();
+                    // Blanks don't separate tokens, so `X 0.5` would read back as the
+                    // symbol `X0` followed by `.5`. A number directly after a symbol can
+                    // only have been written with a leading dot (`X.5`): list it that way.
+                    if let (Some(Token::Symbol(symbol)), Token::NumericLiteral(_)) =
+                        (prev_token, token)
+                    {
+                        if !symbol.as_str().ends_with('$') && string.starts_with("0.") {
+                            string.remove(0);
+                        }
+                    }
+                    prev_token = Some(token);
+                    string
+                })
                 .collect::<Vec<String>>()
                 .join(" ");
             let line_source = format!("{} {}\n", line_number, line);
